@@ -91,7 +91,7 @@ def check(case, viol):
                  for sp, w in zip(specs, wrap)]
     try:
         res = S.run(run_specs, shape, case['seed'], boxes=boxes_in, bbox_format=fmt,
-                    bbox_kw=dict(thr, check_each_transform=case['each']))
+                    bbox_kw=dict(thr, check_each_transform=case['each']), more_boxes=bool(case.get('more_boxes')))
     except Exception as e:  # noqa
         viol.append({'site': 'C04:raises:%s' % '+'.join(s['cls'] for s in specs), 'case': case,
                      'observed': '%s: %s' % (type(e).__name__, e), 'expected': 'boxes clipped or dropped, no exception'})
@@ -130,6 +130,14 @@ def check_expected(case, viol, res, shape, specs, fmt, thr, exact):
     exp = [tuple(to_format(b, fmt, cur_shape)) + (pay,) for b, pay in cur]
     got = res['bboxes']
     ok = len(got) == len(exp) and all(R.seq_close(g[:6], e[:6], 1e-7) and g[6] == e[6] for g, e in zip(got, exp))
+    if ok and 'bboxes2' in res:
+        # the additional box target: filtered on the same schedule, hence the same boxes
+        got2 = res['bboxes2']
+        if not (len(got2) == len(exp) and all(R.seq_close(g[:6], e[:6], 1e-7) and g[6] == e[6] for g, e in zip(got2, exp))):
+            viol.append({'site': 'C04:%s:%s:additional-box-target' % (fmt, '+'.join(s['cls'] for s in specs)), 'case': case,
+                         'observed': [list(map(float, g[:6])) + [g[6]] for g in got2],
+                         'expected': [list(map(float, e[:6])) + [e[6]] for e in exp]})
+            return
     # validity of everything returned
     for g in got:
         px = from_format(g, fmt, cur_shape)
@@ -224,7 +232,8 @@ def gen_case(rng, force_choice=None, force_each=None, force_wrap=None, empty=Fal
     wrap = [rng.choice(CONTAINERS) if rng.random() < 0.3 else None for _ in specs]
     if force_wrap is not None:
         wrap = [force_wrap] + [None] * (len(specs) - 1)
-    return {'shape': [H, W, D], 'bboxes': boxes, 'pipeline': specs, 'wrap': wrap, 'format': rng.choice(FORMATS),
+    return {'shape': [H, W, D], 'bboxes': boxes, 'pipeline': specs, 'wrap': wrap, 'more_boxes': force_wrap is not None or rng.random() < 0.3,
+            'format': rng.choice(FORMATS),
             'thresholds': thr, 'each': (rng.random() < 0.5) if force_each is None else force_each, 'seed': R.pick_seed(rng)}
 
 
